@@ -231,3 +231,26 @@ def model_text(model):
             for k, v in c["items"]:
                 lines.append(f"#{k};" if v is None else f"#{k}:{escape_value(v)};")
     return "\n".join(lines) + "\n"
+
+
+# ---------------------------------------------------------------------------
+# vocabulary: values that *mean* something to StepMania, to Python or to a filesystem
+# ---------------------------------------------------------------------------
+# A simfile library stores text; none of these may be treated specially.  Each is put, alone, into every value and
+# key context the text-level checks have.
+VOCABULARY = [
+    # difficulty names old and new, step types, yes/no
+    "Beginner", "Easy", "Medium", "Hard", "Challenge", "Edit", "basic", "light", "another", "trick", "standard", "difficult",
+    "ssr", "maniac", "heavy", "smaniac", "oni", "ONI", "expert", "dance-single", "pump-routine", "YES", "NO",
+    # attack / timing syntax
+    "TIME=1.000:LEN=2.000:MODS=drunk", ": TIME=", ":\nTIME=1", "a:TIME=", "TIME=1:END=2:MODS=a:TIME=3:LEN=1:MODS=b", "0.000=4=4", "0.000=Song Start", "0.000=song start",
+    # numbers in other spellings
+    "1E1", "1e+1", "1.2E+2", "1_0", "0x10", "\u0661\u0662", "NaN", "inf", "-0", "+1", ".5", "0.5", "0.69", "0.7", "0.70", "0.73", "0.74", "1", "01", "1.",
+    # entity and escape look-alikes
+    "&#38;", "&#38;#1;", "&x41;", "&amp;", "&", "%d", "%%", "100%Pure", "\\n", "\\x41", "\\u00e9", "${HOME}", "~", "~root", "$HOME", "{0}", "{}",
+    # comment, key and parameter look-alikes
+    "/* c */", "<!-- c -->", "NOTES", "NOTEDATA", "#NOTES", "NOTES2", "STEPFILENAME", "None", "null", "True",
+    # Unicode normal forms and case pairs
+    "\u00e9", "e\u0301", "\u212b", "\u00c5", "stra\u00dfe", "STRASSE", "\u0130", "i\u0307",
+]
+KEY_VOCABULARY = ["NOTESX", "NOTES2X", "XNOTES", "NOTEDATA2", "STEPFILENAME", "ORIGIN ", " ORIGIN", "Origin", "STEPS", "NOTE", "TIME=", "&#38;", "%d", "~", "\u00c9", "E\u0301"]
